@@ -73,7 +73,7 @@ CLAIMS = {
  },
  'C07': {
   'technique': 'static analysis: provenance of Context fields at the final rounding sink; own-body panic-site enumeration of the precision-to-scale conversion',
-  'text': 'Partial, structural: Context::{round_decimal, round_decimal_ref, add_refs, add_refs_into} and BigDecimalRef::round_with_context deliver the result of a rounding routine that receives ctx.precision and ctx.rounding; with_precision_round forwards its mode unchanged to with_scale_round and converts precision to scale through checked arithmetic only (the single may-panic site is the documented expect, no integer `as` cast). with_prec\'s rounding (including its behaviour on negatives) and digit counting are NOT decided.',
+  'text': 'Partial, structural: Context::{round_decimal, round_decimal_ref, add_refs, add_refs_into} and BigDecimalRef::round_with_context deliver the result of a rounding routine that receives ctx.precision and ctx.rounding; with_precision_round forwards its mode unchanged to with_scale_round and converts precision to scale through checked arithmetic only (the single may-panic site is the documented expect, no integer `as` cast). The rounding increment of with_prec (and of impl_division) is computed from a magnitude or under an established sign (R-SIGN iii), and add_refs_into rounds exactly a + b. The digit arithmetic of with_prec and digit counting are NOT decided.',
   'note': TRUST,
  },
  'C18': {
